@@ -38,7 +38,10 @@ type bkConn struct {
 	holdKey string // non-empty while the connecting handler is parked (bk.connhold)
 	holdCh  chan struct{}
 	cut     bool // the reader was stopped by bk.sendcut
-	cid     string
+	// QoS>0 PUBLISH packets this connection has received and not yet fully acknowledged, oldest first
+	// (bk.ack acknowledges the oldest): id, qos, stage (QoS 2: 0 = PUBREC due, 1 = PUBCOMP due)
+	pend [][3]int
+	cid  string
 }
 
 type bkHook struct {
@@ -335,6 +338,19 @@ func (b *bkState) collectX(bc int, sortTail int) string {
 		var rs []string
 		for _, p := range pks {
 			r := p.render
+			if p.typ == 3 && p.bad == "" && strings.HasPrefix(r, "PUB:q") && !strings.HasPrefix(r, "PUB:q0") {
+				f := strings.Split(r, ":")
+				id, q := atoi(strings.TrimPrefix(f[4], "id")), atoi(strings.TrimPrefix(f[1], "q"))
+				known := false
+				for _, e := range c.pend {
+					if e[0] == id {
+						known = true
+					}
+				}
+				if !known {
+					c.pend = append(c.pend, [3]int{id, q, 0})
+				}
+			}
 			// C24: a PUBLISH must carry a topic or an alias this connection has seen bound
 			if p.typ == 3 && p.bad == "" {
 				if p.topic != "" && p.alias > 0 {
@@ -866,6 +882,37 @@ func init() {
 			return "timeout-settle"
 		}
 		return b.collect(-1)
+	}
+	// bk.ack <n>: the client acknowledges the QoS>0 PUBLISH with the smallest packet id it has received on this connection and not
+	// yet completed: PUBACK (QoS 1); PUBREC, and at the next bk.ack PUBCOMP (QoS 2). The Lean driver derives the
+	// same packet from the model's own outputs.
+	runners["bk.ack"] = func(st *state, a []string) string {
+		b := bkOf(st)
+		c := b.conns[atoi(a[0])]
+		if c == nil || c.closed {
+			return "no-conn"
+		}
+		if len(c.pend) == 0 {
+			return "nothing-to-ack"
+		}
+		k := 0 // the pending entry with the smallest packet id (independent of the order of arrival)
+		for i, x := range c.pend {
+			if x[0] < c.pend[k][0] {
+				k = i
+			}
+		}
+		e := c.pend[k]
+		typ := "PUBACK"
+		if e[1] == 2 && e[2] == 0 {
+			typ = "PUBREC"
+			c.pend[k][2] = 1
+		} else {
+			if e[1] == 2 {
+				typ = "PUBCOMP"
+			}
+			c.pend = append(c.pend[:k:k], c.pend[k+1:]...)
+		}
+		return runners["bk.send"](st, []string{a[0], typ, fmt.Sprintf("id=%d", e[0])})
 	}
 	runners["bk.drop"] = func(st *state, a []string) string {
 		b := bkOf(st)
